@@ -161,6 +161,7 @@ fn helper_module(rng: &mut Rng, dir: &str, k: usize, names: &[String], o: &WsOpt
     fo.max_fixtures = 2;
     fo.marks = false;
     fo.self_dep_per_mille = o.helper_self_dep_per_mille;
+    fo.dup_names = o.same_file_dups;
     let mut items = gen_items(rng, names, false, &fo);
     if !items.iter().any(|i| matches!(i, Item::Fixture(_))) {
         items.push(Item::Fixture(Fx { func: rng.pick(names).clone(), ..Default::default() }));
